@@ -32,6 +32,9 @@ Rules == {"R1", "R2", "R3", "R4", "R5", "R6", "R7", "R8", "R9", "R10", "R11", "R
           \* collision rules against other sibling shapes: o = the colliding sibling is a proto3 optional
           \* field, x = it is a member of another (plain) oneof
           "R15o", "R15x", "R17o", "R17x", "R19o", "R19x",
+          \* the same collisions with the colliding sibling declared AFTER the flattened field / the oneof
+          \* (a = after), and through a flatten_prefix (p: prefix + child name = sibling name)
+          "R15a", "R15p", "R15pa", "R17a", "R19a",
           \* the annotation on a field of the wrong type, written with the value that is the default of the
           \* right type (PRESERVE, RFC3339, BASE64): still the annotation, still the wrong type
           "R6d", "R9d", "R10d",
@@ -41,7 +44,7 @@ Rules == {"R1", "R2", "R3", "R4", "R5", "R6", "R7", "R8", "R9", "R10", "R11", "R
           \* (v = verb only: the RPC stays on its default route), d = DELETE
           "R24v", "R24d", "R24dv"}
 MethodRules == {"R21", "R22", "R23", "R24", "R24v", "R24d", "R24dv"}
-BaseRule(r) == CASE r \in {"R15o", "R15x"} -> "R15" [] r \in {"R17o", "R17x"} -> "R17" [] r \in {"R19o", "R19x"} -> "R19"
+BaseRule(r) == CASE r \in {"R15o", "R15x", "R15a", "R15p", "R15pa"} -> "R15" [] r \in {"R17o", "R17x", "R17a"} -> "R17" [] r \in {"R19o", "R19x", "R19a"} -> "R19"
                  [] r = "R6d" -> "R6" [] r = "R9d" -> "R9" [] r = "R10d" -> "R10" [] r = "R4o" -> "R4"
                  [] r \in {"R24v", "R24d", "R24dv"} -> "R24" [] OTHER -> r
 MessageRules == Rules \ MethodRules
@@ -81,6 +84,14 @@ Bad(P, full, r) ==
        [] r = "R19" -> MsgO("Bad", full, <<F("x", "x", 1, "string", "one"),
                                            InOneof(FRef("a", "a", 2, "message", "one", c), "o")>>, <<Oneof("o", TRUE, "type", TRUE)>>)
        [] r = "R20" -> Msg("Bad", full, <<Ann(FRef("a", "a", 1, "enum", "one", e), "enumEnc", "NUMBER")>>)
+       [] r = "R15a" -> Msg("Bad", full, <<Ann(FRef("a", "a", 1, "message", "one", c), "flatten", TRUE), F("x", "x", 2, "string", "one")>>)
+       [] r = "R15p" -> Msg("Bad", full, <<F("px", "px", 1, "string", "one"), Ann(Ann(FRef("a", "a", 2, "message", "one", c), "flatten", TRUE), "prefix", "p")>>)
+       [] r = "R15pa" -> Msg("Bad", full, <<Ann(Ann(FRef("a", "a", 1, "message", "one", c), "flatten", TRUE), "prefix", "p"), F("px", "px", 2, "string", "one")>>)
+       [] r = "R17a" -> MsgO("Bad", full, <<InOneof(FRef("a", "a", 2, "message", "one", c), "o"),
+                                            InOneof(FRef("b", "b", 3, "message", "one", c2), "o"),
+                                            F("kind", "kind", 4, "string", "one")>>, <<Oneof("o", TRUE, "kind", FALSE)>>)
+       [] r = "R19a" -> MsgO("Bad", full, <<InOneof(FRef("a", "a", 2, "message", "one", c), "o"),
+                                            F("x", "x", 3, "string", "one")>>, <<Oneof("o", TRUE, "type", TRUE)>>)
        [] r = "R15o" -> Msg("Bad", full, <<F("x", "x", 1, "string", "opt"), Ann(FRef("a", "a", 2, "message", "one", c), "flatten", TRUE)>>)
        [] r = "R15x" -> MsgO("Bad", full, <<InOneof(F("x", "x", 1, "string", "one"), "other"), InOneof(F("w", "w", 3, "int32", "one"), "other"),
                                             Ann(FRef("a", "a", 2, "message", "one", c), "flatten", TRUE)>>, <<Oneof("other", FALSE, "", FALSE)>>)
@@ -98,7 +109,7 @@ Bad(P, full, r) ==
                                  <<Oneof("other", FALSE, "", FALSE), Oneof("o", TRUE, "type", TRUE)>>)
 
 \* the primary name an error message must mention for each rule
-OffenderName(r) == CASE r \in {"R14"} -> "a" [] r \in {"R17", "R18", "R19", "R17o", "R17x", "R19o", "R19x"} -> "o"
+OffenderName(r) == CASE r \in {"R14"} -> "a" [] r \in {"R17", "R18", "R19", "R17o", "R17x", "R19o", "R19x", "R17a", "R19a"} -> "o"
                      [] r = "R21" -> "nope" [] r = "R22" -> "c" [] r = "R23" -> "a" [] r \in {"R24", "R24v", "R24d", "R24dv"} -> "Do" [] OTHER -> "a"
 
 Placements == {"top", "nested", "otherfile", "imported"}
@@ -212,7 +223,7 @@ TwinCase(P, t) ==
 (***************************************************************************)
 (* C14: every codec feature in three file layouts.                         *)
 (***************************************************************************)
-Layouts == {"svc", "nosvc", "crossfile", "nested"}
+Layouts == {"svc", "nosvc", "crossfile", "nested", "enumfile"}
 CodecFeatures == Twins \ {"T_get_query", "T_plain"}
 C14Case(P, t, lay) ==
   LET types == <<Child(P), Child2(P)>> \o TwinMsgs(P, t)
@@ -224,6 +235,12 @@ C14Case(P, t, lay) ==
                      File(P \o "/svc.proto", Pkg(P), GoPkg(P), TRUE, <<>>, <<Svc(P, <<doIn>>)>>, <<In(P), Out(P)>>, <<>>)>>)
        [] lay = "crossfile" ->
             Schema(<<File(P \o "/types.proto", Pkg(P), GoPkg(P), TRUE, <<>>, <<>>, types, <<EnumE, EnumPlain>>),
+                     File(P \o "/svc.proto", Pkg(P), GoPkg(P), TRUE, <<P \o "/types.proto">>, <<Svc(P, <<doW>>)>>, <<Out(P)>>, <<>>)>>)
+       \* the usual enums.proto layout: a file that declares nothing but the enums, the messages that use
+       \* them in a sibling file of the same package
+       [] lay = "enumfile" ->
+            Schema(<<File(P \o "/enums.proto", Pkg(P), GoPkg(P), TRUE, <<>>, <<>>, <<>>, <<EnumE, EnumPlain>>),
+                     File(P \o "/types.proto", Pkg(P), GoPkg(P), TRUE, <<P \o "/enums.proto">>, <<>>, types, <<>>),
                      File(P \o "/svc.proto", Pkg(P), GoPkg(P), TRUE, <<P \o "/types.proto">>, <<Svc(P, <<doW>>)>>, <<Out(P)>>, <<>>)>>)
        \* the annotated message W nested inside an enclosing message that carries no annotation itself
        [] lay = "nested" ->
@@ -257,17 +274,23 @@ C15Case(P, t) ==
       doW == Method("DoW", FN(P, "W"), FN(P, "W"), TRUE, Parts(TRUE, <<Lit("w")>>, FALSE), "POST")
       s1 == WithHeaders(Service("SvcOne", TRUE, Parts(TRUE, <<Lit("one")>>, FALSE), <<doA, doW>>), H3)
       s2 == WithHeaders(Service("SvcTwo", FALSE, NoParts, <<Method("Other", FN(P, "MapB"), FN(P, "Out"), TRUE, Parts(TRUE, <<Lit("o")>>, FALSE), "POST"),
-                                                           Method("Roots", FN(P, "RootA"), FN(P, "RootB"), TRUE, Parts(TRUE, <<Lit("r")>>, FALSE), "POST")>>), H3)
+                                                           Method("Roots", FN(P, "RootA"), FN(P, "RootB"), TRUE, Parts(TRUE, <<Lit("r")>>, FALSE), "POST"),
+                                                           Method("Bill", FN(P, "Order"), FN(P, "Invoice"), TRUE, Parts(TRUE, <<Lit("bill")>>, FALSE), "POST")>>), H3)
       \* messages following the custom-error naming convention (...Error) that live in the type files and
       \* that no RPC reaches: what a service's module declares must not depend on which sibling files of
       \* the package happen to be generated in the same run
       ea == Msg("QuotaExceededError", FN(P, "QuotaExceededError"), <<F("limit", "limit", 1, "int64", "one"), FRef("kind", "kind", 2, "enum", "one", FN(P, "E"))>>)
       eb == Msg("RateLimitError", FN(P, "RateLimitError"), <<F("retry_after", "retryAfter", 1, "int32", "one")>>)
       es == Msg("SvcLocalError", FN(P, "SvcLocalError"), <<F("why", "why", 1, "string", "one")>>)
+      \* two enums that share their short name (nested declarations of two messages): full names order them
+      ord == [Msg("Order", FN(P, "Order"), <<FRef("status", "status", 1, "enum", "one", FN(P, "Order") \o ".Status")>>)
+              EXCEPT !.enums = <<Enum("Status", <<EnumV("STATUS_UNSPECIFIED", 0, ""), EnumV("STATUS_OPEN", 1, "")>>)>>]
+      inv == [Msg("Invoice", FN(P, "Invoice"), <<FRef("status", "status", 1, "enum", "one", FN(P, "Invoice") \o ".Status")>>)
+              EXCEPT !.enums = <<Enum("Status", <<EnumV("STATUS_UNSPECIFIED", 0, ""), EnumV("STATUS_PAID", 1, "")>>)>>]
   IN Schema(<<File(P \o "/types_a.proto", Pkg(P), GoPkg(P), TRUE, <<>>, <<>>, <<Child(P), Child2(P), la, ea>>, <<EnumE>>),
               File(P \o "/types_b.proto", Pkg(P), GoPkg(P), TRUE, <<P \o "/types_a.proto">>, <<>>, <<lb, ma, eb>> \o TwinMsgs(P, t), <<EnumPlain>>),
               File(P \o "/svc.proto", Pkg(P), GoPkg(P), TRUE, <<P \o "/types_a.proto", P \o "/types_b.proto">>,
-                   <<s1, s2>>, <<Out(P), mb, ra, rb, es>>, <<>>),
+                   <<s1, s2>>, <<Out(P), mb, ra, rb, es, ord, inv>>, <<>>),
               \* two files of the same package that nothing imports: visible to a plugin only when they are
               \* generated in the same run
               File(P \o "/errors.proto", Pkg(P), GoPkg(P), TRUE, <<>>, <<>>,
